@@ -14,6 +14,12 @@
    contain it anywhere.  C15_late_flight_keeps / C15_late_flight_on_watched say what the repair buys;
    ex_f8_legacy_refuted shows the invariant's conclusion failing for the unrepaired step.
 
+   Versions: [EApply ups flush_ok] takes ARBITRARY (version, bytes) pairs - forwards, backwards (a
+   rollback at the service), repeated; "newest" is by order of installation everywhere, no theorem has a
+   premise on version numbers.  Cache: flush_ok, what Cache.Write answers to applyUpdates' flush, is an
+   input that decides nothing but the error Refresh reports (C15_cache_answer_irrelevant,
+   C15_cache_answers_irrelevant, C15_refresh_result, C15_failed_flush_still_notifies).
+
    Atomicity assumptions (stated, not proved; data-race freedom is tested with -race):
    Updater.Get holds u.mu for the whole call; each store step runs under Store.active's mutex. *)
 From Coq Require Import List Bool NArith ZArith Arith.
@@ -146,6 +152,35 @@ Theorem C15_late_is_lookup : forall (s : ustate V) n v b now, known (st s) n = f
   step s (ELate n (Some (v, b)) now) = step s (ELookup n v b now).
 Proof. exact (@late_is_lookup V). Qed.
 
+(* ---- "newest" is by ORDER OF INSTALLATION, never by version number: last_install is the last
+   Install in event order, cur is whatever (version, bytes) the store holds, and no theorem above
+   has a premise on version numbers.  A rollback at the service (an older, lower-numbered version
+   activated again) is an install like any other: C15_get_newest with evs = [.. EApply [(n, Install 1 b1)] ..]
+   gives a Get built from b1 although the updater held the build of version 2 (ex_rollback below). *)
+
+(* ---- the cache cannot make an updater miss a version: applyUpdates installs and notifies before it
+   flushes, so for ANY update list the whole state (store incl. every watcher's slot, updaters,
+   builder log) after the step is the same whatever Cache.Write answers ... *)
+Theorem C15_cache_answer_irrelevant : forall (s : ustate V) ups f1 f2,
+  fst (step s (EApply ups f1)) = fst (step s (EApply ups f2)).
+Proof. exact (@apply_state_ignores_flush V). Qed.
+
+(* ... for whole histories too (forget_flush replaces every flush outcome by "succeeded") ... *)
+Theorem C15_cache_answers_irrelevant : forall evs (s : ustate V), exec s (map (@forget_flush V) evs) = exec s evs.
+Proof. exact (@exec_forget_flush V). Qed.
+
+(* ... the answer only decides the error Refresh reports: none if nothing was to apply or the flush
+   succeeded, the cache's error otherwise ... *)
+Theorem C15_refresh_result : forall (s : ustate V) ups f,
+  snd (step s (EApply ups f)) = (if f then OOk else match ups with [] => OOk | _ => OFail end).
+Proof. exact (@apply_result V). Qed.
+
+(* ... and a poll that installs a version of updater i's secret leaves its slot full even when the
+   flush fails - so by C15_get_newest (with C15_cache_answers_irrelevant) the next Get rebuilds *)
+Theorem C15_failed_flush_still_notifies : forall (s : ustate V) i u ups f, UInv s -> nth_error (us s) i = Some u ->
+  has_install (un u) ups = true -> flag_of (st (fst (step s (EApply ups f)))) i = true.
+Proof. exact (@apply_failed_flush_notifies V). Qed.
+
 End C15.
 
 Print Assumptions C15_init.
@@ -160,6 +195,10 @@ Print Assumptions C15_registration_race.
 Print Assumptions C15_late_flight_keeps.
 Print Assumptions C15_late_flight_on_watched.
 Print Assumptions C15_late_is_lookup.
+Print Assumptions C15_cache_answer_irrelevant.
+Print Assumptions C15_cache_answers_irrelevant.
+Print Assumptions C15_refresh_result.
+Print Assumptions C15_failed_flush_still_notifies.
 
 (* ---- non-vacuity: a concrete history.  Secret "a" (version 1, bytes 10); two updaters on it, the
    second registered BEFORE an install and reading AFTER it (the race); three installs coalesce. *)
@@ -178,9 +217,9 @@ Qed.
 Definition ex_evs : list (event N) :=
   [ EReg ex_a true; ERead 0 0%Z; EBuilt 0 true;          (* updater 0 built from v1 *)
     EReg ex_a true;                                        (* updater 1 registers ... *)
-    EApply [(ex_a, Install 2 20)];                         (* ... an install slips in ... *)
+    EApply [(ex_a, Install 2 20)] true;                         (* ... an install slips in ... *)
     ERead 1 0%Z; EBuilt 1 true;                            (* ... it reads v2, and its slot is full *)
-    EApply [(ex_a, Install 3 30)]; EApply [(ex_a, Install 4 40)] ].
+    EApply [(ex_a, Install 3 30)] true; EApply [(ex_a, Install 4 40)] true ].
 
 Example ex_run :
   let s := exec ex_s0 ex_evs in
@@ -233,7 +272,7 @@ Definition ex_f8_prefix : list (event N) := [ ELookup ex_x 1 11 0%Z; EReg ex_x t
 Example ex_f8_legacy_refuted :
   let s := exec ex_t0 ex_f8_prefix in
   let s_late := late_legacy s ex_x 2 22 0%Z in
-  let s_poll := exec s_late [EApply []] in
+  let s_poll := exec s_late [EApply [] true] in
   flag_of (st s_poll) 0 = false
   /\ option_map (fun u => (uph u, upend u, uerr u, ufrom u)) (nth_error (us s_poll) 0) = Some (PLive, None, false, Some (1, 11))
   /\ cur (st s_poll) ex_x = Some (2, 22)
@@ -247,13 +286,13 @@ Proof. vm_compute. repeat split. Qed.
 Example ex_f8_repaired :
   let s := exec ex_t0 ex_f8_prefix in
   let s_late := exec s [ELate ex_x (Some (2, 22)) 0%Z] in
-  let s_poll := exec s_late [EApply [(ex_x, Install 2 22)]] in
+  let s_poll := exec s_late [EApply [(ex_x, Install 2 22)] true] in
   cur (st s_late) ex_x = Some (1, 11) /\ flag_of (st s_late) 0 = false
   /\ flag_of (st s_poll) 0 = true /\ cur (st s_poll) ex_x = Some (2, 22)
   /\ snd (get s_poll 0 0%Z true) = OVal 1 false
   /\ blog (fst (get s_poll 0 0%Z true)) = [(0%nat, 0%nat, 11, true); (0%nat, 1%nat, 22, true)]
-  /\ last_install ex_x [ELate ex_x (Some (2, 22)) 0%Z; EApply [(ex_x, Install 2 22)]] None = Some (2, 22)
-  /\ quiet 0 [ELate ex_x (Some (2, 22)) 0%Z; EApply [(ex_x, Install 2 22)]].
+  /\ last_install ex_x [ELate ex_x (Some (2, 22)) 0%Z; EApply [(ex_x, Install 2 22)] true] None = Some (2, 22)
+  /\ quiet 0 [ELate ex_x (Some (2, 22)) 0%Z; EApply [(ex_x, Install 2 22)] true].
 Proof.
   vm_compute. repeat split. intros e [<-|[<-|[]]]; reflexivity.
 Qed.
@@ -261,10 +300,10 @@ Qed.
 (* the same, literally against C15_inv: the state reached with the unrepaired step does not satisfy
    UInv (so no proof of [step_UInv] could have covered that step) *)
 Example ex_f8_legacy_not_UInv :
-  ~ UInv (exec (late_legacy (exec ex_t0 ex_f8_prefix) ex_x 2 22 0%Z) [EApply []]).
+  ~ UInv (exec (late_legacy (exec ex_t0 ex_f8_prefix) ex_x 2 22 0%Z) [EApply [] true]).
 Proof.
   intros H.
-  set (s := exec (late_legacy (exec ex_t0 ex_f8_prefix) ex_x 2 22 0%Z) [EApply []]) in *.
+  set (s := exec (late_legacy (exec ex_t0 ex_f8_prefix) ex_x 2 22 0%Z) [EApply [] true]) in *.
   assert (E : exists u, nth_error (us s) 0 = Some u) by (vm_compute; eauto).
   destruct E as (u & Hu).
   assert (F : (uph u, upend u, uerr u, ufrom u, useen u) = (PLive, None, false, Some (1, 11), Some (1, 11))
@@ -276,3 +315,24 @@ Proof.
   - rewrite F2, F4, Fr in A. discriminate.
   - rewrite Er in A. discriminate.
 Qed.
+
+(* ---- rollback and failing cache.  Updater 0 on "a" holds the build of version 1; the service goes to
+   version 2, then BACK to version 1 (lower number), each installed by a poll; the second poll's cache
+   write fails (Refresh reports an error).  Get rebuilds from the bytes of version 1 - the newest
+   INSTALLED - and then a further rollback-free poll changes nothing. *)
+Example ex_rollback :
+  let s0 := exec ex_s0 (firstn 3 ex_evs) in
+  let s1 := exec s0 [EApply [(ex_a, Install 2 20)] true] in
+  let g1 := get s1 0 0%Z true in
+  let r2 := step (fst g1) (EApply [(ex_a, Install 1 10)] false) in
+  let g2 := get (fst r2) 0 0%Z true in
+  snd g1 = OVal 1 false
+  /\ snd r2 = OFail                                              (* Refresh reports the cache's error ... *)
+  /\ flag_of (st (fst r2)) 0 = true                              (* ... the watcher was woken all the same *)
+  /\ cur (st (fst r2)) ex_a = Some (1, 10)
+  /\ last_install ex_a [EApply [(ex_a, Install 1 10)] false] None = Some (1, 10)
+  /\ snd g2 = OVal 2 false                                       (* rebuilt from the rolled-back bytes *)
+  /\ blog (fst g2) = [(0%nat, 0%nat, 10, true); (0%nat, 1%nat, 20, true); (0%nat, 2%nat, 10, true)]
+  /\ snd (get (fst g2) 0 0%Z true) = OVal 2 false.
+Proof. vm_compute. repeat split. Qed.
+
